@@ -59,9 +59,18 @@ def gen_equal(rng, long=False):
     return c
 
 
+CROWD = dict(CFG, nworkers=(7, 9), depth=1, stmts=(2, 5), nacts=(15, 40),
+             kinds=[["prio", [0, 1]]],
+             ops={"sleep0": 3, "switch": 3, "sleepinsert": 1, "callpos": 1, "log": 1},
+             env={"step": 12, "callsoon": 0.5})
+
+
 def gen(rng, tier):
-    for _ in range(350 if tier == "quick" else 8000):
+    for _ in range(300 if tier == "quick" else 8000):
         yield gen_prio(rng)
+    # crowded ready queues: removals from inner and leaf slots of the heap by positional scheduling
+    for _ in range(100 if tier == "quick" else 2000):
+        yield with_kinds(G.gen_case(rng, CROWD), rng)
 
 
 def gen_eq(rng, tier):
@@ -97,6 +106,13 @@ def oracle(case, ob):
                 elif t == -1 or not st[TASKS][t][5]:
                     if Fraction(*base) != 0:
                         return f"{where}: a non-priority callback was queued with key {Fraction(*base)}, expected 0"
+        # the entry the loop will pop next is the heap's root: it must be the most urgent one
+        if arr:
+            root = (arr[0][0], Fraction(*arr[0][1]) + Fraction(*arr[0][2]), arr[0][4])
+            best = min((e[0], Fraction(*e[1]) + Fraction(*e[2]), e[4]) for e in arr)
+            if root != best:
+                return (f"{where}: the priority loop would next run handle {arr[0][5]} (class/priority/arrival {root}) "
+                        f"although an entry with {best} is queued")
         # what runs next: positional entries first (in their order), then (priority, arrival)
         order = [h[0] for h in st[READY][1]]
         keys = {e[5]: (e[0], Fraction(*e[1]) + Fraction(*e[2]), e[4]) for e in arr}
